@@ -604,8 +604,48 @@ class Engine:
         if r == z3.sat:
             return "sat", mdl
         if r == z3.unsat:
+            if getattr(self, "recheck_budget", 0) > 0:
+                self.second_opinion(conds)
             return "unsat", None
         return "unknown", None
+
+    def second_opinion(self, conds):
+        """thorough tier: re-discharge an unsat verification condition with the cvc5 binary on the exported SMT-LIB2
+        text. A disagreement (cvc5 says sat) or an (error line is recorded; the caller treats it as inconclusive."""
+        import subprocess, tempfile, os
+        self.recheck_budget -= 1
+        st = getattr(self, "recheck_stats", None)
+        if st is None:
+            st = self.recheck_stats = {"agree": 0, "skipped": 0, "disagree": 0}
+        s = z3.Solver()
+        for c in conds:
+            s.add(c)
+        txt = s.to_smt2()
+        if "lambda" in txt or "declare-fun" not in txt and "assert" not in txt:
+            st["skipped"] += 1
+            return
+        txt = "(set-logic ALL)\n" + txt
+        fd, path = tempfile.mkstemp(suffix=".smt2")
+        try:
+            os.write(fd, txt.encode())
+            os.close(fd)
+            p = subprocess.run(["cvc5", "--lang=smt2", "--tlimit=20000", path], capture_output=True, text=True, timeout=40)
+            out = (p.stdout + p.stderr).strip()
+            if "(error" in out or p.returncode not in (0,):
+                st["skipped"] += 1
+            elif out.split("\n")[0].strip() == "unsat":
+                st["agree"] += 1
+            elif out.split("\n")[0].strip() == "sat":
+                st["disagree"] += 1
+            else:
+                st["skipped"] += 1
+        except Exception:
+            st["skipped"] += 1
+        finally:
+            try:
+                os.unlink(path)
+            except OSError:
+                pass
 
     def concretize(self, st, e, what="value"):
         """Return list of all feasible concrete values of e (bounded)."""
